@@ -1,4 +1,18 @@
-/- `axmodel <engine> [defect flags…]` : one request per stdin line, one response per stdout line. -/
+/- `axmodel <engine> [defect flags…]` : one case per stdin line, one answer per stdout line. -/
+import AxVerif.Driver.BTree
+import AxVerif.Driver.Cache
+import AxVerif.Driver.Crash
+import AxVerif.Driver.Fuzz
+import AxVerif.Driver.Hist
+import AxVerif.Driver.Pager
+import AxVerif.Driver.Parse
+import AxVerif.Driver.Plan
+import AxVerif.Driver.Pool
+import AxVerif.Driver.Sql
+import AxVerif.Driver.Threads
+import AxVerif.Driver.Tuple
+import AxVerif.Driver.Value
+import AxVerif.Driver.Wal
 import AxVerif.Driver.Wire
 open AxVerif
 
@@ -12,5 +26,19 @@ def main (args : List String) : IO UInt32 := do
   let stdin ← IO.getStdin
   let stdout ← IO.getStdout
   match args with
-  | "wire" :: flags => loop stdin stdout (Wire.step (Wire.parseDefects flags)); return 0
+  | "btree" :: flags => loop stdin stdout (Drivers.btree flags); return 0
+  | "cache" :: flags => loop stdin stdout (Drivers.cache flags); return 0
+  | "crash" :: flags => loop stdin stdout (Drivers.crash flags); return 0
+  | "fuzz" :: flags => loop stdin stdout (Drivers.fuzz flags); return 0
+  | "hist" :: flags => loop stdin stdout (Drivers.hist flags); return 0
+  | "pager" :: flags => loop stdin stdout (Drivers.pager flags); return 0
+  | "parse" :: flags => loop stdin stdout (Drivers.parse flags); return 0
+  | "plan" :: flags => loop stdin stdout (Drivers.plan flags); return 0
+  | "pool" :: flags => loop stdin stdout (Drivers.pool flags); return 0
+  | "sql" :: flags => loop stdin stdout (Drivers.sql flags); return 0
+  | "threads" :: flags => loop stdin stdout (Drivers.threads flags); return 0
+  | "tuple" :: flags => loop stdin stdout (Drivers.tuple flags); return 0
+  | "value" :: flags => loop stdin stdout (Drivers.value flags); return 0
+  | "wal" :: flags => loop stdin stdout (Drivers.wal flags); return 0
+  | "wire" :: flags => loop stdin stdout (Drivers.wire flags); return 0
   | _ => IO.eprintln "usage: axmodel <engine> [defect flags]"; return 2
